@@ -55,6 +55,8 @@ type AssignTarget struct {
 }
 
 type LoopSpec struct {
+	OrderFree []string // property tags: the loop ranges over a map and must not depend on iteration order
+	IsOrderFree bool
 	Ord     int
 	Invs    []Clause
 	Assigns []AssignTarget // optional (nil = computed)
@@ -405,6 +407,9 @@ func (s *Specs) loadSpecFile(path string) error {
 			case "loop":
 				// loop N invariant E | loop N assigns ...
 				f := strings.Fields(rest)
+				if len(f) == 2 && f[1] == "orderfree" {
+					f = append(f, "")
+				}
 				if len(f) < 3 {
 					return fmt.Errorf("%s: bad loop clause", where)
 				}
@@ -425,6 +430,8 @@ func (s *Specs) loadSpecFile(path string) error {
 						return err
 					}
 					ls.Invs = append(ls.Invs, c)
+				case "orderfree":
+					ls.IsOrderFree = true
 				case "assigns":
 					ts, err := parseAssigns(body)
 					if err != nil {
